@@ -266,9 +266,30 @@ def exhaustive_small(run, maxlen):
             "through lyd_value_validate (data hints, base 10) and through the store callback with LYD_HINT_SCHEMA (base 0)" % (n, maxlen))
 
 
+def corpus(run):
+    """corpus/val/*.txt: hand seeds and minimised past disagreements, one request per line (without id / component); run first"""
+    import os
+    from vlib import paths
+    d = os.path.join(paths.CORPUS, "val")
+    both, impl = [], []
+    if os.path.isdir(d):
+        for f in sorted(os.listdir(d)):
+            if not f.endswith(".txt"):
+                continue
+            for l in open(os.path.join(d, f)):
+                l = l.split("#")[0].strip()
+                if not l:
+                    continue
+                (impl if l.startswith(("routes ", "validate_n ")) or " t:" in l else both).append(l)
+    run.diff(both)
+    run.impl_only(impl, count_kind="val:corpus")
+    run.cx.dist["val:corpus-lines"] = len(both) + len(impl)
+
+
 def run_val(cx, derived=True):
     run = Run(cx)
     rng = cx.sub_rng("val")
+    corpus(run)
     exhaustive_small(run, cx.n(4, 5))
 
     accepted = {}     # type -> list of accepted lexicals (data hints)
@@ -397,6 +418,7 @@ def run_val(cx, derived=True):
     cx.rule("val: LYB value decode of boundary byte strings of every size 0..9 for the fixed-size types; bits bitmaps over defined positions only "
             "(an undefined position set is finding F51, replayed separately)")
 
+    laws_value_len(run, lex_of)
     routes(run, accepted, lex_of)
     if derived:
         derived_types(run)
@@ -474,6 +496,46 @@ def laws_value(run, accepted, pairs):
                 ok = re.match(rb"^(0|-?[1-9][0-9]*)$", c) if head in INTS else re.match(rb"^(-?(0|[1-9][0-9]*)\.([0-9]*[1-9]|0))$", c)
                 if not ok or c in (b"-0", b"-0.0"):
                     cx.fail(COMP, "canonical form is not the RFC 7950 canonical form", dict(case, law="canon_is_rfc_canonical"))
+
+
+# ------------------------------------------- (L) a value is the bytes [value, value + value_len), nothing beyond
+def laws_value_len(run, lex_of):
+    """lyd_value_validate(value, value_len) on a prefix of a longer buffer must give the verdict of the prefix alone, and must
+    not read past value_len when the buffer ends there (finding F52: lyplg_type_parse_dec64 looks at value[len + 1])."""
+    cx = run.cx
+    rng = cx.sub_rng("value_len")
+    cases = []
+    for d, lex in lex_of.items():
+        head = d.split(":")[0]
+        if ":" in d or not (head in INTS or re.match(r"d\d+$", head) or head in ("bool", "str")):
+            continue
+        pool = [s for s in lex if 2 <= len(s) <= 24 and b"\x00" not in s]
+        rng.shuffle(pool)
+        must = [b"1.5", b"1.x", b"-0.25", b"12.", b"7.0"] if head.startswith("d") else [b"12345", b"1 2", b"truex"]
+        for k, s in enumerate(must + pool[:cx.n(6, 40)]):
+            cuts = {len(s) - 1, 1} | ({s.index(b".") + 1} if b"." in s else set())
+            for n in sorted(c for c in cuts if 0 < c < len(s)):
+                # the exactly-sized heap buffer (a sanitizer abort costs a harness restart) only for a few types and values
+                cases.append((d, s, n, k < len(must) and d in ("d2", "d18", "i8", "u64", "bool", "str")))
+    lines = []
+    for d, s, n, ex in cases:
+        lines.append("validate_n %s %s %d 0" % (d, hexs(s), n))
+        if ex:
+            lines.append("validate_n %s %s %d 1" % (d, hexs(s), n))
+        lines.append("validate %s %s" % (d, hexs(s[:n])))
+    run.impl_only(lines, count_kind="val:value_len")
+    cx.rule("val: value_len: prefixes of boundary lexical values handed to lyd_value_validate with value_len < strlen, from a longer buffer and from an "
+            "exactly-sized unterminated heap buffer (under ASan); verdict and canonical value must be those of the prefix alone")
+    for d, s, n, ex in cases:
+        ref = run.get("validate %s %s" % (d, hexs(s[:n])))
+        for exact in ((0, 1) if ex else (0,)):
+            r = run.get("validate_n %s %s %d %d" % (d, hexs(s), n, exact))
+            if r[:2] == ["err", "Crash"]:
+                continue        # recorded by run_impl as a failure with the sanitizer report
+            cx.count(("value_len", d, s, n, exact), True, "val:law:value-len")
+            if r != ref:
+                cx.fail(COMP, "the verdict for a value depends on bytes beyond value_len",
+                        {"type": d, "value_hex": hexs(s[:n]), "buffer_hex": hexs(s), "value_len": n, "exact_buffer": exact, "got": r, "alone": ref, "law": "value_len"})
 
 
 # ------------------------------------------------------------ (L) acceptance = RFC 7950 value space (oracle)
